@@ -47,6 +47,7 @@ from adaptix import (
     as_is_loader,
     dumper,
     enum_by_name,
+    flag_by_member_names,
     loader,
     name_mapping,
     validator,
@@ -333,6 +334,24 @@ class CNodeDst:
     children: List["CNodeDst"] = field(default_factory=list)
 
 
+@dataclass
+class CSrc:
+    a: int
+    b: int
+
+
+@dataclass
+class CDst:
+    a: int
+    c: int
+
+
+@dataclass
+class M1S:
+    a: str
+    b: str = "x"
+
+
 # ------------------------------------------------------------------------------------------------
 # type pool: name -> hint, with confusable families
 
@@ -373,7 +392,8 @@ _t("union",
    UNoneInt=Union[None, int], PipeIntNone=int | None, UIntStrNone=Union[int, str, None],
    UBoolInt=Union[bool, int], UIntBool=Union[int, bool], UFloatInt=Union[float, int], UIntFloat=Union[int, float],
    UNested=Union[int, Union[str, None]], UListIntStr=Union[List[int], str], OptListInt=Optional[List[int]],
-   UM1M3=Union[M1, M3], UM3M1=Union[M3, M1])
+   UM1M3=Union[M1, M3], UM3M1=Union[M3, M1], ULM1LM2=Union[List[M1], List[M2]], ULM2LM1=Union[List[M2], List[M1]],
+   UDM1DM2=Union[Dict[str, M1], Dict[str, M2]], UDM2DM1=Union[Dict[str, M2], Dict[str, M1]])
 _t("scalar",
    int=int, bool=bool, float=float, str=str, Decimal=Decimal, bytes=bytes, bytearray=bytearray, NoneT=type(None),
    Any=Any, object=object, Color=Color, Shade=Shade, Perm=Perm, BytesIO=io.BytesIO, IOBytes=typing.IO[bytes])
@@ -449,7 +469,10 @@ DATA: Dict[str, Any] = {
     "unsupported": {"ok": 1}, "fwd": {"x": 1, "late": {"z": 2}}, "fwd_none": {"x": 1},
     "pm": {"a": 1, "items": [1, 2]},
     "tup_is": [1, "s"], "tup_Ts": [True, "s"], "tup_01": [0, 1], "tup_FT": [False, True],
-    "dec": "1.50", "color1": 1, "colorR": "R", "perm3": 3,
+    "dec": "1.50", "color1": 1, "colorR": "R", "perm3": 3, "perm_names": ["RD", "WR"],
+    # a defaultdict is a legal mapping input; looking up a missing required key in it has a side effect
+    "dd_m_b": collections.defaultdict(int, {"b": "y"}), "dd_m_a": collections.defaultdict(int, {"a": 1}),
+    "dd_inner": collections.defaultdict(list, {"tags": ["t"]}),
 }
 
 # which data make a meaningful probe for which type (battery); every type additionally sees ATOMS
@@ -472,14 +495,15 @@ BATTERY: Dict[str, List[str]] = {
     "UIntStr": ["s1", "f1"], "UStrInt": ["s1", "f1"], "UIntStrNone": ["s1", "f1"], "UBoolInt": ["f1"], "UIntBool": ["f1"],
     "UFloatInt": ["f1", "f0"], "UIntFloat": ["f1", "f0"], "UNested": ["s1"], "UListIntStr": ["l1", "s1", "lA"],
     "OptListInt": ["l1", "lA"], "UM1M3": ["m_ab", "m_aTb", "m_bad"], "UM3M1": ["m_ab", "m_aTb", "m_bad"],
+    "ULM1LM2": ["lm", "l1"], "ULM2LM1": ["lm", "l1"], "UDM1DM2": ["dm"], "UDM2DM1": ["dm"],
     "float": ["f1"], "str": ["s1"], "Decimal": ["dec", "f1"], "bytes": ["b64", "sX"], "bytearray": ["b64"],
-    "Any": ["lmix"], "object": ["lmix"], "Color": ["color1", "colorR"], "Shade": ["sDark"], "Perm": ["perm3", "i2"],
+    "Any": ["lmix"], "object": ["lmix"], "Color": ["color1", "colorR"], "Shade": ["sDark"], "Perm": ["perm3", "i2", "perm_names"],
     "BytesIO": ["b64"], "IOBytes": ["b64"],
     "N3": ["s1"], "ListN1": ["l1", "lTF"], "ListN2": ["l1", "lTF"],
     "AnnListInt1": ["l1", "lTF"], "AnnListIntT": ["l1", "lTF"],
-    "M1": ["m_ab", "m_aTb", "m_a", "m_bad", "m_extra"], "M2": ["m_ab", "m_aTb", "m_a", "m_bad"],
+    "M1": ["m_ab", "m_aTb", "m_a", "m_bad", "m_extra", "dd_m_b", "dd_m_a"], "M2": ["m_ab", "m_aTb", "m_a", "m_bad", "dd_m_b"],
     "M3": ["m_ab", "m_aTb", "m_a", "m_bad"], "ListM1": ["lm"], "ListM2": ["lm"], "OptM1": ["m_ab", "m_bad"],
-    "DictStrM1": ["dm"], "Inner": ["inner", "inner_neg", "inner_extra"], "NT": ["nt", "nt_tags"], "ListNT": ["lnt"],
+    "DictStrM1": ["dm"], "Inner": ["inner", "inner_neg", "inner_extra", "dd_inner"], "NT": ["nt", "nt_tags"], "ListNT": ["lnt"],
     "TD": ["td", "td_a"], "AT": ["at", "at_a"], "SnakeCase": ["snake", "snake_camel"], "WithAny": ["withany"],
     "WithExtra": ["withextra", "withextra_plain"], "WithDefaults": ["withdefaults_empty", "withdefaults_full"],
     "KwModel": ["kw", "m_a"], "StreamHolder": ["stream", "stream_bad"],
@@ -581,6 +605,7 @@ OBJECTS: Dict[str, Any] = {
     "o_unsupported": lambda: Unsupported(1), "o_fwd": lambda: FwdUser(1, _LateBoundImpl(2)), "o_fwd_none": lambda: FwdUser(1),
     "o_srcouter": _srcouter, "o_srcinner": lambda: SrcInner([1], {"k": [1]}),
     "o_lsrcinner": lambda: [SrcInner([1]), SrcInner([2], {"k": [3]})],
+    "o_csrc": lambda: CSrc(1, 2),
     "o_dsrcinner": lambda: {"p": SrcInner([1]), "q": SrcInner([2], {"k": [3]})},
 }
 if PM is not None:
@@ -618,6 +643,7 @@ DUMP_BATTERY: Dict[str, List[str]] = {
     "UIntStrNone": ["o_i1", "o_a", "o_none"], "UBoolInt": ["o_i1", "o_T"], "UIntBool": ["o_i1", "o_T"],
     "UFloatInt": ["o_i1", "o_f1"], "UIntFloat": ["o_i1", "o_f1"], "UNested": ["o_i1", "o_a", "o_none"],
     "UListIntStr": ["o_l01", "o_a"], "OptListInt": ["o_l01", "o_none"], "UM1M3": ["o_m1", "o_m3"], "UM3M1": ["o_m1", "o_m3"],
+    "ULM1LM2": ["o_lm1", "o_lm2"], "ULM2LM1": ["o_lm1", "o_lm2"], "UDM1DM2": ["o_dm1"], "UDM2DM1": ["o_dm1"],
     "int": ["o_i1", "o_T"], "bool": ["o_T", "o_i1"], "float": ["o_f1"], "str": ["o_a"], "Decimal": ["o_dec"],
     "bytes": ["o_bytes"], "bytearray": ["o_barr"], "NoneT": ["o_none"], "Any": ["o_lmix"], "object": ["o_lmix"],
     "Color": ["o_colorR", "o_colorG"], "Shade": ["o_dark"], "Perm": ["o_perm3"], "BytesIO": ["o_bytesio", "o_bytesio0"],
@@ -657,11 +683,16 @@ CONVERTERS: Dict[str, Tuple[Any, Any, List[str]]] = {
     "DictInner": (Dict[str, SrcInner], Dict[str, DstInner], ["o_dsrcinner"]),
     "InnerTags": (Inner, Inner, ["o_inner"]),
     "NT2M1": (M1, M2, ["o_m1"]),
+    "CLink": (CSrc, CDst, ["o_csrc"]),
+    "M1Str": (M1, M1S, ["o_m1"]),
 }
 CONV_RECIPES: Dict[str, Any] = {
     "plain": lambda: [],
     "link_title": lambda: [link(P[SrcOuter].name, P[DstRenamed].title)],
     "coerce_int_str": lambda: [coercer(int, str, str)],
+    "coerce_int_hash": lambda: [coercer(int, str, _hash_str)],
+    "link_b_c": lambda: [link(P[CSrc].b, P[CDst].c)],
+    "link_a_c": lambda: [link(P[CSrc].a, P[CDst].c)],
 }
 
 
@@ -679,6 +710,10 @@ def _inc(x):
 
 def _nonneg(x):
     return x >= 0
+
+
+def _hash_str(x):
+    return "#" + str(x)
 
 
 SHARED_NM_CAMEL = name_mapping(name_style=NameStyle.CAMEL)
@@ -707,6 +742,7 @@ RECIPES: Dict[str, Any] = {
     "dumper_int_str": lambda: [dumper(int, str)],
     "dumper_scoped": lambda: [dumper(P[Node].value, str)],
     "asis_m2": lambda: [as_is_loader(M2)],
+    "flag_names": lambda: [flag_by_member_names(Perm)],
     "unsupported_fix": lambda: [loader(typing.Callable[[int], int], lambda x: x), dumper(typing.Callable[[int], int], lambda x: None)],
 }
 
